@@ -470,14 +470,100 @@ def gate_level(ctx):
         os.unlink(f.name)
 
 
+def header_level(ctx):
+    """raw `Authorization` header texts through the real gate (a back-end that accepts everything records what it is asked) against
+    RadicaleModel/BasicHeader.lean: which (login, password) reaches the back-end, which headers end the request with 500, which are
+    no credentials at all.  Independent oracle for well-formed headers: the pair that was encoded"""
+    if not ctx.driver:
+        return
+    rng = ctx.rng("header")
+    alpha = "ABCDEFGHIJKLMNOPQRSTUVWXYZabcdefghijklmnopqrstuvwxyz0123456789+/"
+    logins = ["alice", "bob", "a b", "é", "x@y.org", "", "al:ice", "日本", "a" * 40]
+    pws = ["secret", "p:w", ":", "", "pä ss", "::x:", "\u20ac", " lead", "trail ", "=", "a" * 70]
+    n = ctx.n(400, 12000)
+    cases = []
+    for i in range(n):
+        k = rng.random()
+        sent = None
+        if k < 0.35:
+            lg, pw = rng.choice(logins), rng.choice(pws)
+            raw = "Basic " + base64.b64encode(("%s:%s" % (lg, pw)).encode("utf-8")).decode()
+            sent = (lg, pw)
+        elif k < 0.45:
+            raw = rng.choice(["Basic", "Basic ", "Basic\t", "Basic  ", "BasicYWxpY2U6cHc=", "basic YWxpY2U6cHc=", "BASIC YWxpY2U6cHc=", "Bearer abc", "",
+                              "Basic YWxpY2U6cHc= ", " Basic YWxpY2U6cHc=", "Basic\u00a0YWxpY2U6cHc=", "Basic YWxpY2U6cHc=\u2028", "Digest x", "Basic é",
+                              "Basic YWxpY2U6cHc\u00e9="])
+        elif k < 0.6:
+            # latin-1 and invalid UTF-8 inside, no colon
+            payload = rng.choice([b"al\xe9:pw", b"a:\xff\xfe", b"nocolon", b"", b":", b"\xc3\xa9:x", b"a:b\xc3", b"\x00:\x00"])
+            raw = "Basic " + base64.b64encode(payload).decode()
+        else:
+            # base-64 soup: junk characters, padding in odd places, dangling groups
+            good = base64.b64encode(("%s:%s" % (rng.choice(logins), rng.choice(pws))).encode("utf-8")).decode()
+            chars_ = list(good)
+            for _ in range(rng.randint(1, 4)):
+                op = rng.random()
+                pos = rng.randrange(len(chars_) + 1)
+                if op < 0.35:
+                    chars_.insert(pos, rng.choice(["=", "-", "_", " ", "\n", ".", "!", "=="]))
+                elif op < 0.7 and chars_:
+                    chars_.pop(min(pos, len(chars_) - 1))
+                else:
+                    chars_.insert(pos, rng.choice(alpha))
+            raw = "Basic " + "".join(chars_)
+        cases.append((raw, sent))
+    ans = ctx.driver.ask([{"m": "authgate", "op": "basicheader", "header": chars(raw)} for raw, _ in cases])
+    with App({"auth": {"type": "none"}, "rights": {"type": "authenticated"}}) as app:
+        asked = []
+        real_auth = app.application._auth
+        orig_login = real_auth._login
+
+        def recording(login, password):
+            asked.append((login, password))
+            return login
+        real_auth._login = recording
+        try:
+            for (raw, sent), a in zip(cases, ans):
+                del asked[:]
+                env = {"HTTP_AUTHORIZATION": raw} if raw != "" else {}
+                try:
+                    st, hd, text = app.request("PROPFIND", "/", PROPFIND_CUP, **env)
+                except Exception as e:
+                    st = 599
+                    text = repr(e)
+                if st == 500:
+                    got = {"kind": "error"}
+                elif asked:
+                    got = {"kind": "creds", "login": asked[0][0], "pw": asked[0][1]}
+                else:
+                    got = {"kind": "absent"}
+                model = {"kind": a["kind"]}
+                if a["kind"] == "creds":
+                    model.update(login=unchars(a["login"]), pw=unchars(a["pw"]))
+                    if model["login"] == "":
+                        model = {"kind": "absent"}        # an empty login is no credentials: the back-end is not asked
+                case = {"header": raw, "status": st}
+                ctx.case("header:%s" % got["kind"], sample=dict(case, read_as=got), key=["header", raw], nontrivial=got["kind"] != "absent")
+                if sent is not None and sent[0] and ":" not in sent[0]:
+                    if got != {"kind": "creds", "login": sent[0], "pw": sent[1]}:
+                        ctx.violation("the back-end was not asked about the credentials the client sent: sent %r, asked %r" % (sent, got), case)
+                if got != model:
+                    ctx.disagree("reading of the Authorization header vs model BasicHeader.parse", case, got, model)
+        finally:
+            real_auth._login = orig_login
+
+
 def run(ctx):
     ctx.extra["rule"] = ("(a) generated htpasswd files (comments, blanks, colons / non-ASCII / leading blanks in passwords, five schemes side by "
                          "side, wrong-length and near-miss hashes) x encryption in {plain,md5,sha256,sha512,bcrypt,autodetect} x cache on/off x "
                          "12 attempts each; (a2) htpasswd_cache=True: histories of 3-10 file edits (same-size password change, user swapped, "
                          "removed, added, touch only, 1 ns mtime steps) each followed by a login; (b) requests with every Authorization shape and identity headers against five back-ends; "
+                         "(c) raw Authorization header texts (well-formed pairs with colons / blanks / non-ASCII, scheme spellings, white space, Latin-1 and "
+                         "invalid UTF-8 payloads, base-64 soup with junk, misplaced padding, dangling groups) through the real gate with a recording back-end; "
                          "non-trivial = an entry for the login exists / the request is not a plain anonymous one")
     ctx.trusted += ["passlib / bcrypt verifiers (the model's hash oracle is their truth table)", "hmac.compare_digest = equality",
                     "LDAP/IMAP/PAM/OAuth2/Dovecot back-ends are outside the model (only the common gate applies)"]
     htpasswd_level(ctx)
     cache_history_level(ctx)
     gate_level(ctx)
+    header_level(ctx)
